@@ -17,7 +17,7 @@ WHAT = {
     "C20": "test cases were not run exactly once in order, results do not add up, or the exit status does not report the run",
 }
 ACTIONS = ["StartDoc", "PickLimit", "RunTest", "OnCode", "ValidateDoc", "EndDoc", "Finish"]
-FOCUS_ACTIONS = {"C05": ["OnUnknown"], "C14": ["OnTimeout"], "C15": ["OnSkip"], "C20": ["OnSkip", "OnDetached", "OnUnknown", "OnScriptExit"]}
+FOCUS_ACTIONS = {"C05": ["OnUnknown"], "C14": ["OnTimeout"], "C15": ["OnSkip", "OnUnknown"], "C20": ["OnSkip", "OnDetached", "OnUnknown", "OnScriptExit"]}
 QUICK = {"C05": 450, "C14": 200, "C15": 400, "C20": 260}
 THOROUGH = {"C05": 4000, "C14": 400, "C15": 3000, "C20": 3000}
 
@@ -60,7 +60,7 @@ def run(prop, tier, replay=None):
         with open(replay) as f:
             body = json.load(f)
         scn = body["replay"]["scenario"]
-        for fld, dflt in (("dirarg", False), ("compat", False)):      # replay files written before a field existed
+        for fld, dflt in (("dirarg", False), ("compat", False), ("rel", False)):      # replay files written before a field existed
             scn.setdefault(fld, dflt)
         chosen = [{"sc": scn, "predict": None}]
         states = trans = 0
@@ -98,8 +98,9 @@ def run(prop, tier, replay=None):
                         if t["det"] and len(ts) == 3 and any(u["dur"] > 0 or u["beh"] == "signal" or u["code"] == 80 for u in ts[i + 1:]):
                             return True
                 return False
-            small = [v for v in allsc if sum(len(d["tests"]) for d in v["sc"]["docs"]) <= 1 or (prop in ("C20", "C05") and rare(v)) or detcut(v) or v["sc"].get("compat")
+            small = [v for v in allsc if sum(len(d["tests"]) for d in v["sc"]["docs"]) <= 1 or (prop in ("C20", "C05") and rare(v)) or detcut(v) or v["sc"].get("compat") or v["sc"].get("rel")
                      or (prop == "C05" and (v["sc"]["pre"] or v["sc"]["app"]))
+                     or (prop == "C15" and any(t["beh"] == "signal" for d in v["sc"]["docs"] for t in d["tests"]))
                      or any(t["beh"] == "exitscript" and t["code"] == 3 for d in v["sc"]["docs"] for t in d["tests"])
                      or (v["sc"].get("dirarg") and len(v["sc"]["docs"]) == 3 and len(v["sc"]["docs"][0]["tests"]) == 1 and v["sc"]["docs"][0]["fmt"] == "md")]
             rest = [v for v in allsc if v not in small]
